@@ -43,7 +43,7 @@ def sh(cmd, timeout=3600, cwd=VERIF):
     return p.returncode, p.stdout.decode(errors='replace')
 
 
-TIES = {'C15': ['Index'], 'C20': ['ThreadProg'], 'C17': ['Preds'], 'C02': ['Consts'], 'C03': ['Consts'], 'C12': ['Consts'], 'C18': ['Consts'],
+TIES = {'C15': ['Index'], 'C20': ['ThreadProg', 'Writes'], 'C19': ['Writes'], 'C17': ['Preds'], 'C02': ['Consts'], 'C03': ['Consts'], 'C12': ['Consts'], 'C18': ['Consts'],
         'C13': ['SymbolOps'], 'C07': ['SymbolOps']}
 
 
